@@ -479,10 +479,11 @@ theorem remStep_uses_remFlag (U : ℕ → K) (u : K) (p : ℕ) (tol2 : K) (cp te
 
 /-- **When every iso-curve is removable at every step, every iso-curve of the rows branch of A5.8 is A5.8 of
     that iso-curve** (`s ≤ p` copies present, `num ≤ s` of them removed, the `num` steps stay inside the
-    net: `p + num ≤ r < #rows`; `m = len(rows[0]) > 0` points per row). -/
+    net: `p + num ≤ r < #rows`; `m = len(rows[0]) > 0` points per row; `hR`: rectangular rows – the guard of the code
+    (ragged rows: `IndexError`) and of the driver op, not needed by the proof). -/
 theorem knotRemovalRows_isocurve_of_all_removable (p : ℕ) (U : ℕ → K) (R : List (List (List K))) (u : K)
-    (num s r : ℕ) (tol2 : K) (hm : 0 < (R.headD []).length) (hsp : s ≤ p) (hns : num ≤ s) (hps : p + num ≤ r)
-    (hr : r < R.length)
+    (num s r : ℕ) (tol2 : K) (hR : Rows.RectW (R.headD []).length R) (hm : 0 < (R.headD []).length) (hsp : s ≤ p)
+    (hns : num ≤ s) (hps : p + num ≤ r) (hr : r < R.length)
     (hall : ∀ c, c < (R.headD []).length → Rows.AllRemovable p U (isoCol c R) u num s r tol2)
     (c : ℕ) (hc : c < (R.headD []).length) :
     isoCol c (knotRemovalRows p U R u num s r tol2) = knotRemoval p U (isoCol c R) u num s r tol2 :=
@@ -574,8 +575,8 @@ theorem volume_w_rows_insert_r_remove_t (Ul : List K) (P : List (List K)) (ub : 
     recomputed points back) or both clear (neither does; the first step writes into no shared row).  Caveats
     1 and 2 below are the two ways the flags can be different. -/
 theorem knotRemovalRows_one_removal_isocurve_of_equal_flags (p : ℕ) (U : ℕ → K) (R : List (List (List K))) (u : K)
-    (s r : ℕ) (tol2 : K) (hm : 0 < (R.headD []).length) (hsp : s ≤ p) (hps : p + 1 ≤ r) (hs1 : 1 ≤ s)
-    (hr : r < R.length) (c : ℕ) (hc : c < (R.headD []).length)
+    (s r : ℕ) (tol2 : K) (hR : Rows.RectW (R.headD []).length R) (hm : 0 < (R.headD []).length) (hsp : s ≤ p)
+    (hps : p + 1 ≤ r) (hs1 : 1 ≤ s) (hr : r < R.length) (c : ℕ) (hc : c < (R.headD []).length)
     (hf : Rows.remFlag U u p tol2 (Rows.remState p U (isoCol c R) u s r tol2 0) 0
         = Rows.remFlag U u p tol2 (Rows.remState p U (isoCol 0 R) u s r tol2 0) 0) :
     isoCol c (knotRemovalRows p U R u 1 s r tol2) = knotRemoval p U (isoCol c R) u 1 s r tol2 :=
